@@ -1,8 +1,1678 @@
-//! C04 — not implemented yet.
+//! C04 — a decision's value is its logic evaluated over its requirement graph; input entries
+//! outside the requirement closure have no influence.
+//!
+//! Acyclic requirement graphs (inputs, decisions, knowledge models, decision services) are
+//! generated, rendered as DMN XML, loaded with `dmntk_model::parse` + `ModelEvaluator::new`, and
+//! every invocable is evaluated with `evaluate_invocable` on generated input contexts — plain,
+//! with additional entries outside the requirement closure, and with entries named like
+//! required decisions / knowledge models (finding F14).  The same graph — the logic as syntax
+//! trees delivered by the real parser in the scope the builder uses — goes to the Lean model
+//! (`Dmn.Drg.evaluateInvocable`) and the specification (`Dmn.Drg.Spec.evaluateInvocable`).
 
-use crate::report::Report;
+use crate::c01::{Gen, Vars, K};
+use crate::model::Model;
+use crate::report::{Kind, Report};
+use crate::rng::Rng;
+use crate::sexp::Sexp;
+use crate::util::guarded;
+use crate::vals::{ast_sexp, value_sexp};
 use crate::Cfg;
+use dmntk_feel::context::FeelContext;
+use dmntk_feel::values::Value;
+use dmntk_feel::{FeelType, Name, Scope};
+use dmntk_model_evaluator::ModelEvaluator;
+use serde_json::json;
+use std::collections::{BTreeMap, BTreeSet};
 
-pub fn run(_cfg: &Cfg) -> Report {
-  Report::new("C04", "not implemented")
+// ------------------------------------------------------------------------------------------
+// the generated graph
+
+#[derive(Clone, Copy, PartialEq, Eq, Debug)]
+pub enum Ty {
+  Untyped,
+  Other,
+  Number,
+  Str,
+  Boolean,
+}
+
+impl Ty {
+  fn atom(self) -> &'static str {
+    match self {
+      Ty::Untyped => "untyped",
+      Ty::Other => "other",
+      Ty::Number => "number",
+      Ty::Str => "string",
+      Ty::Boolean => "boolean",
+    }
+  }
+  fn attr(self) -> String {
+    match self {
+      Ty::Untyped => String::new(),
+      Ty::Other => " typeRef=\"tNoSuchType\"".into(),
+      t => format!(" typeRef=\"{}\"", t.atom()),
+    }
+  }
+  fn feel_type(self) -> Option<FeelType> {
+    match self {
+      Ty::Number => Some(FeelType::Number),
+      Ty::Str => Some(FeelType::String),
+      Ty::Boolean => Some(FeelType::Boolean),
+      _ => None,
+    }
+  }
+}
+
+#[derive(Clone, Debug)]
+pub enum Logic {
+  Lit(String),
+  /// entries with a variable, or (`None`) the result entry
+  Ctx(Vec<(Option<String>, Logic)>),
+  /// called function, bindings; `true`: rendered as a boxed function definition whose formal
+  /// parameters carry value expressions (the closure is the same, `mod.rs:330-349`)
+  Inv(Box<Logic>, Vec<(String, Logic)>, bool),
+  /// columns, rows of literal expressions
+  Rel(Vec<String>, Vec<Vec<String>>),
+}
+
+#[derive(Clone, Debug)]
+pub struct GInput {
+  id: String,
+  name: String,
+  ty: Ty,
+}
+
+#[derive(Clone, Debug)]
+pub struct GDecision {
+  id: String,
+  name: String,
+  var: String,
+  ty: Ty,
+  req_inputs: Vec<String>,
+  req_decisions: Vec<String>,
+  req_knowledge: Vec<String>,
+  logic: Logic,
+}
+
+#[derive(Clone, Debug)]
+pub struct GBkm {
+  id: String,
+  name: String,
+  var: String,
+  ty: Ty,
+  params: Vec<(String, Ty)>,
+  req_knowledge: Vec<String>,
+  logic: Logic,
+}
+
+#[derive(Clone, Debug)]
+pub struct GService {
+  id: String,
+  name: String,
+  var: String,
+  ty: Ty,
+  input_data: Vec<String>,
+  input_decisions: Vec<String>,
+  encapsulated: Vec<String>,
+  output: Vec<String>,
+}
+
+#[derive(Clone, Debug, Default)]
+pub struct Graph {
+  inputs: Vec<GInput>,
+  decisions: Vec<GDecision>,
+  bkms: Vec<GBkm>,
+  services: Vec<GService>,
+}
+
+impl Graph {
+  fn input(&self, id: &str) -> Option<&GInput> {
+    self.inputs.iter().rev().find(|x| x.id == id)
+  }
+  fn decision(&self, id: &str) -> Option<&GDecision> {
+    self.decisions.iter().rev().find(|x| x.id == id)
+  }
+  fn bkm(&self, id: &str) -> Option<&GBkm> {
+    self.bkms.iter().rev().find(|x| x.id == id)
+  }
+  fn service(&self, id: &str) -> Option<&GService> {
+    self.services.iter().rev().find(|x| x.id == id)
+  }
+  /// names of every variable of a decision, knowledge model or decision service
+  fn var_names(&self) -> BTreeSet<String> {
+    let mut s = BTreeSet::new();
+    for d in &self.decisions {
+      s.insert(d.var.clone());
+    }
+    for b in &self.bkms {
+      s.insert(b.var.clone());
+    }
+    for x in &self.services {
+      s.insert(x.var.clone());
+    }
+    s
+  }
+  fn invocable_names(&self) -> Vec<String> {
+    let mut v: Vec<String> = vec![];
+    for n in self.bkms.iter().map(|b| &b.name).chain(self.decisions.iter().map(|d| &d.name)).chain(self.services.iter().map(|s| &s.name)) {
+      if !v.contains(n) {
+        v.push(n.clone());
+      }
+    }
+    v
+  }
+  fn bkm_requires_service(&self) -> bool {
+    self.bkms.iter().any(|b| b.req_knowledge.iter().any(|k| self.service(k).is_some()))
+  }
+}
+
+// ------------------------------------------------------------------------------------------
+// XML
+
+fn esc(s: &str) -> String {
+  s.replace('&', "&amp;").replace('<', "&lt;").replace('>', "&gt;").replace('"', "&quot;")
+}
+
+fn logic_xml(l: &Logic) -> String {
+  match l {
+    Logic::Lit(t) => format!("<literalExpression><text>{}</text></literalExpression>", esc(t)),
+    Logic::Ctx(entries) => {
+      let mut s = String::from("<context>");
+      for (n, e) in entries {
+        s.push_str("<contextEntry>");
+        if let Some(n) = n {
+          s.push_str(&format!("<variable name=\"{}\"/>", esc(n)));
+        }
+        s.push_str(&logic_xml(e));
+        s.push_str("</contextEntry>");
+      }
+      s.push_str("</context>");
+      s
+    }
+    Logic::Inv(f, bindings, false) => {
+      let mut s = String::from("<invocation>");
+      s.push_str(&logic_xml(f));
+      for (n, e) in bindings {
+        s.push_str(&format!("<binding><parameter name=\"{}\"/>{}</binding>", esc(n), logic_xml(e)));
+      }
+      s.push_str("</invocation>");
+      s
+    }
+    Logic::Inv(f, bindings, true) => {
+      let mut s = String::from("<functionDefinition>");
+      for (n, e) in bindings {
+        s.push_str(&format!("<formalParameter name=\"{}\">{}</formalParameter>", esc(n), logic_xml(e)));
+      }
+      s.push_str(&logic_xml(f));
+      s.push_str("</functionDefinition>");
+      s
+    }
+    Logic::Rel(cols, rows) => {
+      let mut s = String::from("<relation>");
+      for c in cols {
+        s.push_str(&format!("<column name=\"{}\"/>", esc(c)));
+      }
+      for r in rows {
+        s.push_str("<row>");
+        for c in r {
+          s.push_str(&format!("<literalExpression><text>{}</text></literalExpression>", esc(c)));
+        }
+        s.push_str("</row>");
+      }
+      s.push_str("</relation>");
+      s
+    }
+  }
+}
+
+const HEAD: &str = r#"<?xml version="1.0" encoding="UTF-8"?><definitions namespace="ns" name="m" id="_m" xmlns="https://www.omg.org/spec/DMN/20191111/MODEL/">"#;
+
+pub fn graph_xml(g: &Graph) -> String {
+  let mut x = String::from(HEAD);
+  for i in &g.inputs {
+    x.push_str(&format!("<inputData name=\"{}\" id=\"{}\"><variable name=\"{}\"{}/></inputData>", esc(&i.name), i.id, esc(&i.name), i.ty.attr()));
+  }
+  for d in &g.decisions {
+    x.push_str(&format!("<decision name=\"{}\" id=\"{}\"><variable name=\"{}\"{}/>", esc(&d.name), d.id, esc(&d.var), d.ty.attr()));
+    let mut r = 0;
+    for q in &d.req_decisions {
+      r += 1;
+      x.push_str(&format!("<informationRequirement id=\"{}_i{}\"><requiredDecision href=\"#{}\"/></informationRequirement>", d.id, r, q));
+    }
+    for q in &d.req_inputs {
+      r += 1;
+      x.push_str(&format!("<informationRequirement id=\"{}_i{}\"><requiredInput href=\"#{}\"/></informationRequirement>", d.id, r, q));
+    }
+    for q in &d.req_knowledge {
+      r += 1;
+      x.push_str(&format!("<knowledgeRequirement id=\"{}_k{}\"><requiredKnowledge href=\"#{}\"/></knowledgeRequirement>", d.id, r, q));
+    }
+    x.push_str(&logic_xml(&d.logic));
+    x.push_str("</decision>");
+  }
+  for b in &g.bkms {
+    x.push_str(&format!("<businessKnowledgeModel name=\"{}\" id=\"{}\"><variable name=\"{}\"{}/><encapsulatedLogic>", esc(&b.name), b.id, esc(&b.var), b.ty.attr()));
+    for (p, t) in &b.params {
+      x.push_str(&format!("<formalParameter name=\"{}\"{}/>", esc(p), t.attr()));
+    }
+    x.push_str(&logic_xml(&b.logic));
+    x.push_str("</encapsulatedLogic>");
+    for (r, q) in b.req_knowledge.iter().enumerate() {
+      x.push_str(&format!("<knowledgeRequirement id=\"{}_k{}\"><requiredKnowledge href=\"#{}\"/></knowledgeRequirement>", b.id, r, q));
+    }
+    x.push_str("</businessKnowledgeModel>");
+  }
+  for s in &g.services {
+    x.push_str(&format!("<decisionService name=\"{}\" id=\"{}\"><variable name=\"{}\"{}/>", esc(&s.name), s.id, esc(&s.var), s.ty.attr()));
+    for q in &s.output {
+      x.push_str(&format!("<outputDecision href=\"#{}\"/>", q));
+    }
+    for q in &s.encapsulated {
+      x.push_str(&format!("<encapsulatedDecision href=\"#{}\"/>", q));
+    }
+    for q in &s.input_decisions {
+      x.push_str(&format!("<inputDecision href=\"#{}\"/>", q));
+    }
+    for q in &s.input_data {
+      x.push_str(&format!("<inputData href=\"#{}\"/>", q));
+    }
+    x.push_str("</decisionService>");
+  }
+  x.push_str("</definitions>");
+  x
+}
+
+// ------------------------------------------------------------------------------------------
+// the graph for the driver: literal expressions parsed by the real parser in the builder's scope
+
+/// `bring_knowledge_requirements_into_context` (`decision.rs:197-218`); `depth` guards the
+/// harness against a cyclic input (the generator makes none).
+fn bring_knowledge(g: &Graph, ids: &[String], ctx: &mut FeelContext, depth: usize) {
+  if depth > 32 {
+    return;
+  }
+  for id in ids {
+    if let Some(b) = g.bkm(id) {
+      ctx.set_null(Name::from(b.var.as_str()));
+      bring_knowledge(g, &b.req_knowledge, ctx, depth + 1);
+    } else if let Some(s) = g.service(id) {
+      ctx.set_null(Name::from(s.var.as_str()));
+    }
+  }
+}
+
+/// The context `build_decision_evaluator` parses the logic in (`decision.rs:100-118`).
+fn decision_build_ctx(g: &Graph, d: &GDecision) -> FeelContext {
+  let mut ctx = FeelContext::default();
+  bring_knowledge(g, &d.req_knowledge, &mut ctx, 0);
+  for q in &d.req_decisions {
+    if let Some(r) = g.decision(q) {
+      ctx.set_null(Name::from(r.var.as_str()));
+      bring_knowledge(g, &r.req_knowledge, &mut ctx, 0);
+    }
+  }
+  for q in &d.req_inputs {
+    if let Some(i) = g.input(q) {
+      if let Some(t) = i.ty.feel_type() {
+        ctx.set_entry(&Name::from(i.name.as_str()), Value::FeelType(t));
+      }
+    }
+  }
+  ctx
+}
+
+/// The context `build_business_knowledge_model_evaluator` parses the body in
+/// (`business_knowledge_model.rs:96-106`).
+fn bkm_build_ctx(b: &GBkm) -> FeelContext {
+  let mut ctx = FeelContext::default();
+  for (p, t) in &b.params {
+    ctx.set_entry(&Name::from(p.as_str()), Value::FeelType(t.feel_type().unwrap_or(FeelType::Any)));
+  }
+  ctx
+}
+
+/// Mirrors the scope handling of `build_expression_instance_evaluator` (`mod.rs:272-405`).
+fn logic_sexp(scope: &Scope, l: &Logic) -> Option<Sexp> {
+  match l {
+    Logic::Lit(t) => {
+      let node = match guarded(|| dmntk_feel_parser::parse_expression(scope, t, false)) {
+        Ok(Ok(n)) => n,
+        _ => return None,
+      };
+      Some(Sexp::tagged("lit", vec![ast_sexp(&node)]))
+    }
+    Logic::Ctx(entries) => {
+      let mut xs = vec![];
+      scope.push(FeelContext::default());
+      let mut ok = true;
+      for (n, e) in entries {
+        match logic_sexp(scope, e) {
+          Some(s) => match n {
+            Some(n) => {
+              scope.insert_null(Name::from(n.as_str()));
+              xs.push(Sexp::tagged("entry", vec![Sexp::str(n), s]));
+            }
+            None => xs.push(Sexp::tagged("result", vec![s])),
+          },
+          None => {
+            ok = false;
+            break;
+          }
+        }
+      }
+      scope.pop();
+      if ok {
+        Some(Sexp::tagged("ctx", xs))
+      } else {
+        None
+      }
+    }
+    Logic::Inv(f, bindings, _) => {
+      let mut xs = vec![logic_sexp(scope, f)?];
+      for (n, e) in bindings {
+        xs.push(Sexp::list(vec![Sexp::str(n), logic_sexp(scope, e)?]));
+      }
+      Some(Sexp::tagged("inv", xs))
+    }
+    Logic::Rel(cols, rows) => {
+      let mut rs = vec![];
+      for r in rows {
+        let mut cells = vec![];
+        for (i, c) in r.iter().enumerate() {
+          if let Some(col) = cols.get(i) {
+            cells.push(Sexp::list(vec![Sexp::str(col), logic_sexp(scope, &Logic::Lit(c.clone()))?]));
+          }
+        }
+        rs.push(Sexp::tagged("row", cells));
+      }
+      Some(Sexp::tagged("rel", rs))
+    }
+  }
+}
+
+fn strs(xs: &[String]) -> Sexp {
+  Sexp::list(xs.iter().map(|s| Sexp::str(s)).collect())
+}
+
+fn type_atom(t: Ty) -> Sexp {
+  // formal parameter types: the FEEL type (`Any` when untyped)
+  crate::vals::type_sexp(&t.feel_type().unwrap_or(FeelType::Any))
+}
+
+pub fn graph_sexp(g: &Graph) -> Option<Sexp> {
+  let mut is = vec![];
+  for i in &g.inputs {
+    is.push(Sexp::list(vec![Sexp::str(&i.id), Sexp::str(&i.name), Sexp::atom(i.ty.atom())]));
+  }
+  let mut ds = vec![];
+  for d in &g.decisions {
+    let scope: Scope = decision_build_ctx(g, d).into();
+    let l = logic_sexp(&scope, &d.logic)?;
+    ds.push(Sexp::list(vec![
+      Sexp::str(&d.id),
+      Sexp::str(&d.name),
+      Sexp::str(&d.var),
+      Sexp::atom(d.ty.atom()),
+      strs(&d.req_inputs),
+      strs(&d.req_decisions),
+      strs(&d.req_knowledge),
+      l,
+    ]));
+  }
+  let mut ks = vec![];
+  for b in &g.bkms {
+    let scope: Scope = bkm_build_ctx(b).into();
+    let l = logic_sexp(&scope, &b.logic)?;
+    ks.push(Sexp::list(vec![
+      Sexp::str(&b.id),
+      Sexp::str(&b.name),
+      Sexp::str(&b.var),
+      Sexp::atom(b.ty.atom()),
+      Sexp::list(b.params.iter().map(|(p, t)| Sexp::list(vec![Sexp::str(p), type_atom(*t)])).collect()),
+      strs(&b.req_knowledge),
+      l,
+    ]));
+  }
+  let mut ss = vec![];
+  for s in &g.services {
+    ss.push(Sexp::list(vec![
+      Sexp::str(&s.id),
+      Sexp::str(&s.name),
+      Sexp::str(&s.var),
+      Sexp::atom(s.ty.atom()),
+      strs(&s.input_data),
+      strs(&s.input_decisions),
+      strs(&s.encapsulated),
+      strs(&s.output),
+    ]));
+  }
+  Some(Sexp::tagged("graph", vec![Sexp::list(is), Sexp::list(ds), Sexp::list(ks), Sexp::list(ss)]))
+}
+
+// ------------------------------------------------------------------------------------------
+// generation
+
+/// What a name in scope evaluates to (decides how it is used in generated text).
+#[derive(Clone, Debug, PartialEq)]
+enum VK {
+  Num,
+  Str,
+  Bool,
+  /// context with numeric entries `r`, `s`
+  CtxRS,
+  /// list of numbers
+  ListN,
+  /// list of contexts with column `c0`
+  Rel,
+  /// function of the given parameter names returning a number
+  Fun(Vec<String>),
+  /// function returning a context keyed by the given names
+  FunCtx(Vec<String>, Vec<String>),
+  Null,
+}
+
+struct Env {
+  names: Vec<(String, VK)>,
+}
+
+impl Env {
+  fn vars(&self) -> Vars {
+    let mut v = vec![];
+    for (n, k) in &self.names {
+      let k = match k {
+        VK::Num => K::Num,
+        VK::Str => K::Str,
+        VK::Bool => K::Bool,
+        VK::ListN => K::List,
+        VK::Null => K::Any,
+        _ => continue,
+      };
+      // a later binding of the same name shadows
+      v.retain(|(m, _): &(String, K)| m != n);
+      v.push((n.clone(), k));
+    }
+    Vars { vars: v }
+  }
+}
+
+struct GraphGen<'a> {
+  rng: &'a mut Rng,
+  fresh: u32,
+}
+
+impl<'a> GraphGen<'a> {
+  fn sub(&mut self, d: u32, vars: &Vars, what: u8) -> String {
+    let mut g = Gen { rng: self.rng, fresh: self.fresh };
+    let t = match what {
+      0 => g.num(d, vars),
+      1 => g.string(d, vars),
+      2 => g.boolean(d, vars),
+      _ => g.list(d, vars),
+    };
+    self.fresh = g.fresh;
+    t
+  }
+  /// a small numeric expression that does not multiply variables (keeps values small)
+  fn small(&mut self, env: &Env) -> String {
+    let nums: Vec<&String> = env.names.iter().filter(|(_, k)| *k == VK::Num).map(|(n, _)| n).collect();
+    if !nums.is_empty() && self.rng.chance(1, 2) {
+      (*self.rng.pick(&nums)).clone()
+    } else {
+      format!("{}", self.rng.range(0, 9))
+    }
+  }
+  /// a number-valued use of the name `n` of kind `k`
+  fn use_num(&mut self, n: &str, k: &VK, env: &Env) -> Option<String> {
+    Some(match k {
+      VK::Num => n.to_string(),
+      VK::CtxRS => format!("{}.{}", n, self.rng.pick(&["r", "s"])),
+      VK::ListN => format!("{}[{}]", n, self.rng.range(1, 2)),
+      VK::Rel => format!("{}[1].c0", n),
+      VK::Fun(ps) => self.call(n, ps, env),
+      VK::FunCtx(ps, keys) => {
+        let c = self.call(n, ps, env);
+        if keys.is_empty() {
+          return None;
+        }
+        let k = self.rng.pick(keys).clone();
+        format!("{}.{}", c, k)
+      }
+      _ => return None,
+    })
+  }
+  fn call(&mut self, f: &str, ps: &[String], env: &Env) -> String {
+    let args: Vec<String> = ps.iter().map(|_| self.small(env)).collect();
+    match self.rng.below(8) {
+      // named invocation
+      0 | 1 if !ps.is_empty() => format!("{}({})", f, ps.iter().zip(args.iter()).map(|(p, a)| format!("{}: {}", p, a)).collect::<Vec<_>>().join(", ")),
+      // wrong arity
+      2 if !ps.is_empty() => format!("{}({})", f, args[1..].join(", ")),
+      _ => format!("{}({})", f, args.join(", ")),
+    }
+  }
+  /// literal expression text over the names in `env`, and the kind of its value
+  fn expr(&mut self, env: &Env) -> (String, VK) {
+    let vars = env.vars();
+    let usable: Vec<(String, VK)> = env.names.iter().filter(|(_, k)| !matches!(k, VK::Str | VK::Bool | VK::Null)).cloned().collect();
+    let mut pick_use = |me: &mut Self| -> String {
+      if !usable.is_empty() && me.rng.chance(4, 5) {
+        let (n, k) = me.rng.pick(&usable).clone();
+        if let Some(t) = me.use_num(&n, &k, env) {
+          return t;
+        }
+      }
+      me.sub(1, &vars, 0)
+    };
+    match self.rng.below(16) {
+      0 | 1 => (self.sub(2, &vars, 0), VK::Num),
+      2 | 3 | 4 => {
+        let a = pick_use(self);
+        let b = pick_use(self);
+        let op = *self.rng.pick(&["+", "-", "+"]);
+        (format!("{} {} {}", a, op, b), VK::Num)
+      }
+      5 => {
+        let a = pick_use(self);
+        let n = self.sub(1, &vars, 0);
+        (format!("{} + {}", a, n), VK::Num)
+      }
+      6 => {
+        let c = self.sub(1, &vars, 2);
+        let a = pick_use(self);
+        let b = pick_use(self);
+        (format!("if {} then {} else {}", c, a, b), VK::Num)
+      }
+      7 => {
+        let a = pick_use(self);
+        let b = pick_use(self);
+        (format!("{{r: {}, s: {}}}", a, b), VK::CtxRS)
+      }
+      8 => {
+        let a = pick_use(self);
+        let b = pick_use(self);
+        (format!("[{}, {}]", a, b), VK::ListN)
+      }
+      9 => (self.sub(1, &vars, 1), VK::Str),
+      10 => {
+        let a = pick_use(self);
+        let n = self.rng.range(0, 20);
+        (format!("{} > {}", a, n), VK::Bool)
+      }
+      11 => {
+        // a function value flows on (a knowledge model, a decision service, a function literal)
+        let funs: Vec<(String, VK)> = env.names.iter().filter(|(_, k)| matches!(k, VK::Fun(_))).cloned().collect();
+        if !funs.is_empty() && self.rng.chance(2, 3) {
+          let (n, k) = self.rng.pick(&funs).clone();
+          (n, k)
+        } else {
+          let a = pick_use(self);
+          (format!("function(u) u + {}", a), VK::Fun(vec!["u".into()]))
+        }
+      }
+      12 => {
+        let a = pick_use(self);
+        (format!("for i in [1, 2] return i + {}", a), VK::ListN)
+      }
+      13 => {
+        let a = pick_use(self);
+        let b = pick_use(self);
+        (format!("[{}, {}, 7][item > {}]", a, b, self.rng.range(0, 9)), VK::Null)
+      }
+      _ => {
+        let a = pick_use(self);
+        (a, VK::Num)
+      }
+    }
+  }
+  /// decision logic / knowledge model body over `env`
+  fn logic(&mut self, env: &Env, allow_boxed: bool) -> (Logic, VK) {
+    let boxed = allow_boxed && self.rng.chance(2, 5);
+    if !boxed {
+      let (t, k) = self.expr(env);
+      return (Logic::Lit(t), k);
+    }
+    match self.rng.below(6) {
+      0 | 1 => {
+        // boxed context: r, s (sees r), optionally a result entry
+        let (a, ka) = self.expr(env);
+        let ka = if ka == VK::Num { VK::Num } else { VK::Null };
+        let mut inner = Env { names: env.names.clone() };
+        inner.names.push(("r".into(), ka.clone()));
+        let b = format!("{} + {}", if ka == VK::Num { "r".to_string() } else { "1".to_string() }, self.small(env));
+        let mut entries = vec![(Some("r".to_string()), Logic::Lit(a)), (Some("s".to_string()), Logic::Lit(b))];
+        if self.rng.chance(1, 2) {
+          inner.names.push(("s".into(), VK::Num));
+          let (c, kc) = self.expr(&inner);
+          entries.push((None, Logic::Lit(c)));
+          (Logic::Ctx(entries), kc)
+        } else if self.rng.chance(1, 4) {
+          // a nested boxed context writes into the same top context of the scope
+          let nested = Logic::Ctx(vec![(Some("t".to_string()), Logic::Lit("s + 1".into()))]);
+          entries.push((Some("n".to_string()), nested));
+          entries.push((Some("u".to_string()), Logic::Lit("t".into())));
+          (Logic::Ctx(entries), if ka == VK::Num { VK::CtxRS } else { VK::Null })
+        } else {
+          (Logic::Ctx(entries), if ka == VK::Num { VK::CtxRS } else { VK::Null })
+        }
+      }
+      2 | 3 | 4 => {
+        // boxed invocation of a function in scope
+        let funs: Vec<(String, VK)> = env.names.iter().filter(|(_, k)| matches!(k, VK::Fun(_) | VK::FunCtx(..))).cloned().collect();
+        if funs.is_empty() {
+          let (t, k) = self.expr(env);
+          return (Logic::Lit(t), k);
+        }
+        let (f, k) = self.rng.pick(&funs).clone();
+        let (ps, rk) = match k {
+          VK::Fun(ps) => (ps, VK::Num),
+          VK::FunCtx(ps, _) => (ps, VK::Null),
+          _ => (vec![], VK::Null),
+        };
+        let mut bindings = vec![];
+        for p in &ps {
+          if self.rng.chance(9, 10) {
+            let (t, _) = if self.rng.chance(1, 2) { (self.small(env), VK::Num) } else { self.expr(env) };
+            bindings.push((p.clone(), Logic::Lit(t)));
+          }
+        }
+        if self.rng.chance(1, 8) {
+          bindings.push(("zz".into(), Logic::Lit("1".into())));
+        }
+        let as_fd = self.rng.chance(1, 4);
+        (Logic::Inv(Box::new(Logic::Lit(f)), bindings, as_fd), rk)
+      }
+      _ => {
+        let a = self.small(env);
+        let b = self.small(env);
+        let c = self.small(env);
+        (Logic::Rel(vec!["c0".into(), "c1".into()], vec![vec![a, b.clone()], vec![c, b]]), VK::Rel)
+      }
+    }
+  }
+}
+
+const INPUT_NAMES: [&str; 5] = ["a", "b", "c", "Unit Price", "q"];
+const INPUT_TYPES: [Ty; 6] = [Ty::Number, Ty::Number, Ty::Number, Ty::Str, Ty::Boolean, Ty::Other];
+
+fn logic_kinds(l: &Logic, out: &mut BTreeSet<&'static str>) {
+  match l {
+    Logic::Lit(_) => {
+      out.insert("literal");
+    }
+    Logic::Ctx(es) => {
+      out.insert("boxed-context");
+      for (_, e) in es {
+        logic_kinds(e, out);
+      }
+    }
+    Logic::Inv(f, bs, fd) => {
+      out.insert(if *fd { "boxed-function-definition" } else { "boxed-invocation" });
+      logic_kinds(f, out);
+      for (_, e) in bs {
+        logic_kinds(e, out);
+      }
+    }
+    Logic::Rel(..) => {
+      out.insert("relation");
+    }
+  }
+}
+
+fn ty_of_kind(k: &VK, rng: &mut Rng) -> Ty {
+  match rng.below(10) {
+    0..=4 => Ty::Untyped,
+    5 => Ty::Number,
+    6 => Ty::Str,
+    _ => match k {
+      VK::Num => Ty::Number,
+      VK::Str => Ty::Str,
+      VK::Bool => Ty::Boolean,
+      _ => Ty::Untyped,
+    },
+  }
+}
+
+/// the kind of value a variable of declared type `ty` holds when the logic yields kind `k`
+fn coerced_kind(k: &VK, ty: Ty) -> VK {
+  match (ty, k) {
+    (Ty::Untyped, _) | (Ty::Other, _) => k.clone(),
+    (Ty::Number, VK::Num) => VK::Num,
+    (Ty::Str, VK::Str) => VK::Str,
+    (Ty::Boolean, VK::Bool) => VK::Bool,
+    _ => VK::Null,
+  }
+}
+
+struct Kinds {
+  decisions: BTreeMap<String, VK>,
+  bkms: BTreeMap<String, VK>,
+  services: BTreeMap<String, VK>,
+}
+
+pub fn gen_graph(rng: &mut Rng) -> Graph {
+  let mut g = Graph::default();
+  let mut kinds = Kinds { decisions: BTreeMap::new(), bkms: BTreeMap::new(), services: BTreeMap::new() };
+  let n_inputs = 1 + rng.below(3) as usize;
+  let mut names: Vec<&str> = INPUT_NAMES.to_vec();
+  for k in 0..n_inputs {
+    let ix = rng.below(names.len() as u64) as usize;
+    let name = names.remove(ix);
+    // an input without typeRef makes `ModelEvaluator::new` fail (input_data_context.rs:78)
+    let ty = if rng.chance(1, 60) { Ty::Untyped } else { *rng.pick(&INPUT_TYPES) };
+    g.inputs.push(GInput { id: format!("_i{}", k), name: name.to_string(), ty });
+  }
+  let n_nodes = 2 + rng.below(6) as usize;
+  let mut gg = GraphGen { rng, fresh: 0 };
+  for node in 0..n_nodes {
+    let kind = gg.rng.below(10);
+    if kind < 5 || (kind >= 8 && g.decisions.is_empty()) || node == 0 {
+      gen_decision(&mut gg, &mut g, &mut kinds, node);
+    } else if kind < 8 {
+      gen_bkm(&mut gg, &mut g, &mut kinds, node);
+    } else {
+      gen_service(&mut gg, &mut g, &mut kinds, node);
+    }
+  }
+  g
+}
+
+fn input_kind(ty: Ty) -> VK {
+  match ty {
+    Ty::Number => VK::Num,
+    Ty::Str => VK::Str,
+    Ty::Boolean => VK::Bool,
+    _ => VK::Null,
+  }
+}
+
+/// The names visible to the logic of a decision with the given requirements, in the order in
+/// which the code lets them shadow each other: typed inputs, then knowledge, then decisions.
+fn decision_env(g: &Graph, kinds: &Kinds, req_inputs: &[String], req_decisions: &[String], req_knowledge: &[String]) -> Env {
+  let mut env = Env { names: vec![] };
+  for q in req_inputs {
+    if let Some(i) = g.input(q) {
+      env.names.push((i.name.clone(), input_kind(i.ty)));
+    }
+  }
+  fn add_bkms(g: &Graph, kinds: &Kinds, ids: &[String], env: &mut Env) {
+    for id in ids {
+      if let Some(b) = g.bkm(id) {
+        add_bkms(g, kinds, &b.req_knowledge, env);
+        for k in &b.req_knowledge {
+          // a decision service required by a knowledge model is bound to its *value*
+          if let Some(s) = g.service(k) {
+            env.names.push((s.var.clone(), VK::Null));
+          }
+        }
+        env.names.push((b.var.clone(), kinds.bkms.get(&b.id).cloned().unwrap_or(VK::Null)));
+      }
+    }
+  }
+  add_bkms(g, kinds, req_knowledge, &mut env);
+  for id in req_knowledge {
+    if let Some(s) = g.service(id) {
+      env.names.push((s.var.clone(), kinds.services.get(&s.id).cloned().unwrap_or(VK::Null)));
+    }
+  }
+  for id in req_decisions {
+    if let Some(d) = g.decision(id) {
+      env.names.push((d.var.clone(), kinds.decisions.get(&d.id).cloned().unwrap_or(VK::Null)));
+    }
+  }
+  env
+}
+
+fn gen_decision(gg: &mut GraphGen, g: &mut Graph, kinds: &mut Kinds, node: usize) {
+  let id = format!("_d{}", node);
+  let mut req_inputs = vec![];
+  for i in &g.inputs {
+    if gg.rng.chance(1, 2) {
+      req_inputs.push(i.id.clone());
+    }
+  }
+  let mut req_decisions = vec![];
+  for d in &g.decisions {
+    if gg.rng.chance(1, 2) {
+      req_decisions.push(d.id.clone());
+    }
+  }
+  let mut req_knowledge = vec![];
+  for b in &g.bkms {
+    if gg.rng.chance(1, 2) {
+      req_knowledge.push(b.id.clone());
+    }
+  }
+  for s in &g.services {
+    if gg.rng.chance(1, 2) {
+      req_knowledge.push(s.id.clone());
+    }
+  }
+  if gg.rng.chance(1, 30) {
+    req_decisions.push("_missing".into());
+  }
+  let env = decision_env(g, kinds, &req_inputs, &req_decisions, &req_knowledge);
+  let (logic, k) = gg.logic(&env, true);
+  // variable name: usually its own, sometimes the name of an input (shadowing) or of another decision
+  let var = match gg.rng.below(12) {
+    0 if !g.inputs.is_empty() => gg.rng.pick(&g.inputs).name.clone(),
+    1 if !g.decisions.is_empty() => gg.rng.pick(&g.decisions).var.clone(),
+    2 => format!("Dec {}", node),
+    _ => format!("d{}", node),
+  };
+  let name = if gg.rng.chance(1, 6) { format!("N{}", node) } else { var.clone() };
+  let ty = ty_of_kind(&k, gg.rng);
+  kinds.decisions.insert(id.clone(), coerced_kind(&k, ty));
+  g.decisions.push(GDecision { id, name, var, ty, req_inputs, req_decisions, req_knowledge, logic });
+}
+
+fn gen_bkm(gg: &mut GraphGen, g: &mut Graph, kinds: &mut Kinds, node: usize) {
+  let id = format!("_k{}", node);
+  let mut req_knowledge = vec![];
+  for b in &g.bkms {
+    if gg.rng.chance(1, 2) {
+      req_knowledge.push(b.id.clone());
+    }
+  }
+  for s in &g.services {
+    if gg.rng.chance(1, 6) {
+      req_knowledge.push(s.id.clone());
+    }
+  }
+  let n_params = gg.rng.below(3) as usize;
+  let mut params = vec![];
+  for p in 0..n_params {
+    let pname = if gg.rng.chance(1, 8) && !g.inputs.is_empty() { gg.rng.pick(&g.inputs).name.clone() } else { format!("p{}", p) };
+    if params.iter().any(|(n, _): &(String, Ty)| *n == pname) {
+      continue;
+    }
+    let ty = *gg.rng.pick(&[Ty::Untyped, Ty::Untyped, Ty::Number, Ty::Str]);
+    params.push((pname, ty));
+  }
+  // the body sees its parameters, the function values of its requirements (dynamically), and
+  // — dynamic scoping — whatever the caller has in scope (`a` is tried now and then)
+  let mut env = Env { names: vec![] };
+  if gg.rng.chance(1, 5) {
+    env.names.push(("a".into(), VK::Num));
+  }
+  for k in &req_knowledge {
+    if let Some(b) = g.bkm(k) {
+      env.names.push((b.var.clone(), kinds.bkms.get(&b.id).cloned().unwrap_or(VK::Null)));
+    }
+    if let Some(s) = g.service(k) {
+      // bound to the service's value by the code, to the function by the specification
+      env.names.push((s.var.clone(), kinds.services.get(&s.id).cloned().unwrap_or(VK::Null)));
+    }
+  }
+  for (p, t) in &params {
+    env.names.push((p.clone(), if *t == Ty::Str { VK::Str } else { VK::Num }));
+  }
+  let (logic, k) = gg.logic(&env, true);
+  let var = match gg.rng.below(12) {
+    0 if !g.inputs.is_empty() => gg.rng.pick(&g.inputs).name.clone(),
+    _ => format!("f{}", node),
+  };
+  let ty = ty_of_kind(&k, gg.rng);
+  let fk = match coerced_kind(&k, ty) {
+    VK::Num => VK::Fun(params.iter().map(|(p, _)| p.clone()).collect()),
+    _ => VK::Null,
+  };
+  kinds.bkms.insert(id.clone(), fk);
+  g.bkms.push(GBkm { id, name: var.clone(), var, ty, params, req_knowledge, logic });
+}
+
+fn gen_service(gg: &mut GraphGen, g: &mut Graph, kinds: &mut Kinds, node: usize) {
+  let id = format!("_s{}", node);
+  let pick = |rng: &mut Rng, ids: Vec<String>, num: u64, den: u64| -> Vec<String> { ids.into_iter().filter(|_| rng.chance(num, den)).collect() };
+  let input_data = pick(gg.rng, g.inputs.iter().map(|i| i.id.clone()).collect(), 1, 2);
+  let dec_ids: Vec<String> = g.decisions.iter().map(|d| d.id.clone()).collect();
+  let input_decisions = pick(gg.rng, dec_ids.clone(), 1, 4);
+  let encapsulated = pick(gg.rng, dec_ids.clone(), 1, 3);
+  let mut output = pick(gg.rng, dec_ids.clone(), 1, 3);
+  if output.is_empty() || gg.rng.chance(1, 3) {
+    output = vec![dec_ids[gg.rng.below(dec_ids.len() as u64) as usize].clone()];
+  }
+  if gg.rng.chance(1, 25) {
+    output.push("_missing".into());
+  }
+  let var = format!("s{}", node);
+  let ty = if gg.rng.chance(1, 6) { Ty::Number } else { Ty::Untyped };
+  // formal parameters: input data, then input decisions
+  let mut ps = vec![];
+  for q in &input_data {
+    if let Some(i) = g.input(q) {
+      ps.push(i.name.clone());
+    }
+  }
+  for q in &input_decisions {
+    if let Some(d) = g.decision(q) {
+      ps.push(d.var.clone());
+    }
+  }
+  let outs: Vec<&GDecision> = output.iter().filter_map(|q| g.decision(q)).collect();
+  let k = if outs.len() == 1 {
+    match coerced_kind(kinds.decisions.get(&outs[0].id).unwrap_or(&VK::Null), ty) {
+      VK::Num => VK::Fun(ps.clone()),
+      _ => VK::Null,
+    }
+  } else if ty == Ty::Untyped {
+    let keys: Vec<String> = outs.iter().filter(|d| kinds.decisions.get(&d.id) == Some(&VK::Num)).map(|d| d.var.clone()).filter(|v| !v.contains(' ')).collect();
+    VK::FunCtx(ps.clone(), keys)
+  } else {
+    VK::Null
+  };
+  kinds.services.insert(id.clone(), k);
+  g.services.push(GService { id, name: var.clone(), var, ty, input_data, input_decisions, encapsulated, output });
+}
+
+// ------------------------------------------------------------------------------------------
+// hand-made shapes that always run first
+
+fn lit(t: &str) -> Logic {
+  Logic::Lit(t.to_string())
+}
+
+fn dec(id: &str, var: &str, ty: Ty, ri: &[&str], rd: &[&str], rk: &[&str], logic: Logic) -> GDecision {
+  let v = |xs: &[&str]| xs.iter().map(|s| s.to_string()).collect::<Vec<_>>();
+  GDecision { id: id.into(), name: var.into(), var: var.into(), ty, req_inputs: v(ri), req_decisions: v(rd), req_knowledge: v(rk), logic }
+}
+
+fn inp(id: &str, name: &str, ty: Ty) -> GInput {
+  GInput { id: id.into(), name: name.into(), ty }
+}
+
+fn bkm(id: &str, var: &str, ty: Ty, params: &[(&str, Ty)], rk: &[&str], logic: Logic) -> GBkm {
+  GBkm {
+    id: id.into(),
+    name: var.into(),
+    var: var.into(),
+    ty,
+    params: params.iter().map(|(p, t)| (p.to_string(), *t)).collect(),
+    req_knowledge: rk.iter().map(|s| s.to_string()).collect(),
+    logic,
+  }
+}
+
+fn svc(id: &str, var: &str, ty: Ty, ind: &[&str], inp: &[&str], enc: &[&str], out: &[&str]) -> GService {
+  let v = |xs: &[&str]| xs.iter().map(|s| s.to_string()).collect::<Vec<_>>();
+  GService { id: id.into(), name: var.into(), var: var.into(), ty, input_data: v(ind), input_decisions: v(inp), encapsulated: v(enc), output: v(out) }
+}
+
+pub fn corpus() -> Vec<(&'static str, Graph)> {
+  let mut v = vec![];
+  // F14: B = A + 1, A = 1
+  v.push((
+    "f14",
+    Graph { inputs: vec![], decisions: vec![dec("_a", "A", Ty::Untyped, &[], &[], &[], lit("1")), dec("_b", "B", Ty::Untyped, &[], &["_a"], &[], lit("A + 1"))], bkms: vec![], services: vec![] },
+  ));
+  // diamond over one input
+  v.push((
+    "diamond",
+    Graph {
+      inputs: vec![inp("_x", "x", Ty::Number), inp("_y", "y", Ty::Number)],
+      decisions: vec![
+        dec("_l", "L", Ty::Number, &["_x"], &[], &[], lit("x + 1")),
+        dec("_r", "R", Ty::Number, &["_x"], &[], &[], lit("x * 2")),
+        dec("_t", "T", Ty::Number, &[], &["_l", "_r"], &[], lit("L + R")),
+      ],
+      bkms: vec![],
+      services: vec![],
+    },
+  ));
+  // a decision required directly and through a decision service; the service has an input decision
+  v.push((
+    "direct-and-through-service",
+    Graph {
+      inputs: vec![inp("_x", "x", Ty::Number)],
+      decisions: vec![
+        dec("_a", "A", Ty::Number, &["_x"], &[], &[], lit("x + 1")),
+        dec("_m", "M", Ty::Untyped, &[], &["_a"], &[], lit("A * 10")),
+        dec("_t", "T", Ty::Untyped, &[], &["_a"], &["_s"], lit("A + S(5)")),
+        dec("_t2", "T2", Ty::Untyped, &["_x"], &["_a"], &["_s"], lit("S(A: A + x)")),
+      ],
+      bkms: vec![],
+      services: vec![svc("_s", "S", Ty::Untyped, &[], &["_a"], &[], &["_m"])],
+    },
+  ));
+  // knowledge models requiring knowledge models; invocation by literal and by boxed invocation
+  v.push((
+    "bkm-chain",
+    Graph {
+      inputs: vec![inp("_x", "x", Ty::Number)],
+      decisions: vec![
+        dec("_d", "D", Ty::Untyped, &["_x"], &[], &["_g"], lit("G(x) + F(1)")),
+        dec("_e", "E", Ty::Untyped, &["_x"], &[], &["_g"], Logic::Inv(Box::new(lit("G")), vec![("p".into(), lit("x + 2"))], false)),
+        dec("_e2", "E2", Ty::Untyped, &["_x"], &[], &["_g"], Logic::Inv(Box::new(lit("G")), vec![("p".into(), lit("x + 2"))], true)),
+      ],
+      bkms: vec![bkm("_f", "F", Ty::Number, &[("p", Ty::Number)], &[], lit("p * 2")), bkm("_g", "G", Ty::Untyped, &[("p", Ty::Untyped)], &["_f"], lit("F(p) + 1"))],
+      services: vec![],
+    },
+  ));
+  // name shadowing: a decision's variable named like an input; a knowledge model body reading the caller's scope
+  v.push((
+    "shadowing",
+    Graph {
+      inputs: vec![inp("_x", "x", Ty::Number)],
+      decisions: vec![
+        dec("_a", "x", Ty::Untyped, &[], &[], &[], lit("100")),
+        dec("_b", "B", Ty::Untyped, &["_x"], &["_a"], &["_f"], lit("x + F()")),
+      ],
+      bkms: vec![bkm("_f", "F", Ty::Untyped, &[], &[], lit("x + 1"))],
+      services: vec![],
+    },
+  ));
+  // boxed context (with a nested context writing into the same scope), relation
+  v.push((
+    "boxed",
+    Graph {
+      inputs: vec![inp("_x", "x", Ty::Number)],
+      decisions: vec![
+        dec(
+          "_c",
+          "C",
+          Ty::Untyped,
+          &["_x"],
+          &[],
+          &[],
+          Logic::Ctx(vec![
+            (Some("r".into()), lit("x + 1")),
+            (Some("n".into()), Logic::Ctx(vec![(Some("t".into()), lit("r * 2"))])),
+            (Some("u".into()), lit("t")),
+          ]),
+        ),
+        dec("_c2", "C2", Ty::Untyped, &["_x"], &[], &[], Logic::Ctx(vec![(Some("r".into()), lit("x + 1")), (None, lit("r * 3"))])),
+        dec("_r", "R", Ty::Untyped, &["_x"], &[], &[], Logic::Rel(vec!["c0".into(), "c1".into()], vec![vec!["x".into(), "1".into()], vec!["2".into(), "x + 2".into()]])),
+      ],
+      bkms: vec![],
+      services: vec![],
+    },
+  ));
+  // acyclic by ids, recursive by names: the knowledge model `_g` is named like the model it
+  // requires and invokes; function values are dynamically scoped, so `F` in its body is itself.
+  // The implementation overflows its stack (C05/C12 territory); the model diverges.
+  v.push((
+    "recursion-by-name",
+    Graph {
+      inputs: vec![inp("_x", "x", Ty::Number)],
+      decisions: vec![dec("_d", "D", Ty::Untyped, &["_x"], &[], &["_g"], lit("F(x)"))],
+      bkms: vec![bkm("_f", "F", Ty::Untyped, &[("p", Ty::Untyped)], &[], lit("p + 1")), bkm("_g", "F", Ty::Untyped, &[("p", Ty::Untyped)], &["_f"], lit("F(p) + 1"))],
+      services: vec![],
+    },
+  ));
+  // a knowledge model requiring a decision service; a service with two output decisions
+  v.push((
+    "bkm-requires-service",
+    Graph {
+      inputs: vec![inp("_x", "x", Ty::Number)],
+      decisions: vec![
+        dec("_a", "A", Ty::Number, &["_x"], &[], &[], lit("x + 1")),
+        dec("_b", "B", Ty::Number, &["_x"], &[], &[], lit("x + 2")),
+        dec("_d", "D", Ty::Untyped, &["_x"], &[], &["_f"], lit("F(x)")),
+        dec("_d2", "D2", Ty::Untyped, &["_x"], &[], &["_s2"], lit("S2(x).A + S2(x: 10).B")),
+      ],
+      bkms: vec![bkm("_f", "F", Ty::Untyped, &[("p", Ty::Untyped)], &["_s"], lit("S(p)"))],
+      services: vec![svc("_s", "S", Ty::Untyped, &["_x"], &[], &[], &["_a"]), svc("_s2", "S2", Ty::Untyped, &["_x"], &[], &[], &["_a", "_b"])],
+    },
+  ));
+  v
+}
+
+pub fn cyclic_corpus() -> Vec<(&'static str, Graph)> {
+  vec![
+    (
+      "two decisions requiring each other",
+      Graph { inputs: vec![], decisions: vec![dec("_a", "A", Ty::Untyped, &[], &["_b"], &[], lit("B")), dec("_b", "B", Ty::Untyped, &[], &["_a"], &[], lit("A"))], bkms: vec![], services: vec![] },
+    ),
+    (
+      "two knowledge models requiring each other",
+      Graph {
+        inputs: vec![],
+        decisions: vec![dec("_a", "A", Ty::Untyped, &[], &[], &["_f"], lit("1"))],
+        bkms: vec![bkm("_f", "F", Ty::Untyped, &[], &["_g"], lit("1")), bkm("_g", "G", Ty::Untyped, &[], &["_f"], lit("1"))],
+        services: vec![],
+      },
+    ),
+    (
+      "a decision requiring a service whose output decision requires it",
+      Graph {
+        inputs: vec![],
+        decisions: vec![dec("_a", "A", Ty::Untyped, &[], &[], &["_s"], lit("1")), dec("_b", "B", Ty::Untyped, &[], &["_a"], &[], lit("A"))],
+        bkms: vec![],
+        services: vec![svc("_s", "S", Ty::Untyped, &[], &[], &[], &["_b"])],
+      },
+    ),
+    (
+      "a decision requiring itself",
+      Graph { inputs: vec![], decisions: vec![dec("_a", "A", Ty::Untyped, &[], &["_a"], &[], lit("1"))], bkms: vec![], services: vec![] },
+    ),
+  ]
+}
+
+// ------------------------------------------------------------------------------------------
+// input contexts
+
+fn eval_text(text: &str) -> Value {
+  let s = Scope::default();
+  match dmntk_feel_parser::parse_expression(&s, text, false).ok().and_then(|n| dmntk_feel_evaluator::evaluate(&s, &n).ok()) {
+    Some(v) => v,
+    None => Value::Null(None),
+  }
+}
+
+fn value_text(ty: Ty, rng: &mut Rng) -> String {
+  let right = rng.chance(5, 6);
+  let k = if right {
+    match ty {
+      Ty::Number => 0,
+      Ty::Str => 1,
+      Ty::Boolean => 2,
+      _ => rng.below(3),
+    }
+  } else {
+    rng.below(4)
+  };
+  match k {
+    0 => format!("{}", rng.range(-3, 30)),
+    1 => format!("\"{}\"", rng.pick(&["a", "b", ""])),
+    2 => format!("{}", rng.chance(1, 2)),
+    _ => "null".into(),
+  }
+}
+
+/// A base context: values for (most of) the inputs of the graph.
+fn base_entries(g: &Graph, rng: &mut Rng) -> Vec<(String, String)> {
+  let mut es = vec![];
+  for i in &g.inputs {
+    if rng.chance(7, 8) {
+      es.push((i.name.clone(), value_text(i.ty, rng)));
+    }
+  }
+  es
+}
+
+fn ctx_of(entries: &[(String, String)]) -> FeelContext {
+  let mut c = FeelContext::default();
+  for (n, t) in entries {
+    c.set_entry(&Name::from(n.as_str()), eval_text(t));
+  }
+  c
+}
+
+fn ctx_text(entries: &[(String, String)]) -> String {
+  format!("{{{}}}", entries.iter().map(|(n, t)| format!("{}: {}", n, t)).collect::<Vec<_>>().join(", "))
+}
+
+
+// ------------------------------------------------------------------------------------------
+// the implementation runs in child processes of this executable (`vharness C04 c04-child`):
+// unbounded recursion through function values overflows the stack and aborts the process
+
+const SEP: char = '\u{1f}';
+
+/// stdin: the XML on the first line, then one case per line: invocable, then name / text
+/// pairs, all separated by U+001F.  stdout: `built` / `builderror` / `buildpanic`, then one
+/// answer line per case.
+fn child_main() {
+  use std::io::{BufRead, Write};
+  let stdin = std::io::stdin();
+  let mut lines = stdin.lock().lines();
+  let xml = match lines.next() {
+    Some(Ok(l)) => l,
+    _ => return,
+  };
+  let out = std::io::stdout();
+  let me = match guarded(|| dmntk_model::parse(&xml).map_err(|e| e.to_string()).and_then(|d| ModelEvaluator::new(&d).map_err(|e| e.to_string()))) {
+    Ok(Ok(me)) => me,
+    Ok(Err(_)) => {
+      println!("builderror");
+      return;
+    }
+    Err(m) => {
+      println!("buildpanic {}", Sexp::str(&m));
+      return;
+    }
+  };
+  println!("built");
+  let _ = out.lock().flush();
+  for l in lines {
+    let l = match l {
+      Ok(l) => l,
+      Err(_) => break,
+    };
+    let parts: Vec<&str> = l.split(SEP).collect();
+    let inv = parts[0];
+    let mut entries = vec![];
+    let mut i = 1;
+    while i + 1 < parts.len() {
+      entries.push((parts[i].to_string(), parts[i + 1].to_string()));
+      i += 2;
+    }
+    let ctx = ctx_of(&entries);
+    let r = render_impl(guarded(|| me.evaluate_invocable(inv, &ctx)));
+    println!("{}", r);
+    let _ = out.lock().flush();
+  }
+}
+
+/// Runs the cases in a child; returns the build line and the answers received, and how the
+/// child ended (`ok`, `signal:6`, `timeout`, …).
+fn run_child(xml: &str, cases: &[(String, Vec<(String, String)>)], timeout_ms: u64) -> (String, Vec<String>, String) {
+  use std::io::{Read, Write};
+  use std::process::{Command, Stdio};
+  let exe = std::env::current_exe().expect("current_exe");
+  let mut ch = Command::new(exe).arg("C04").arg("c04-child").stdin(Stdio::piped()).stdout(Stdio::piped()).stderr(Stdio::null()).spawn().expect("spawn child");
+  let mut data = String::new();
+  data.push_str(xml);
+  data.push('\n');
+  for (inv, entries) in cases {
+    data.push_str(inv);
+    for (n, t) in entries {
+      data.push(SEP);
+      data.push_str(n);
+      data.push(SEP);
+      data.push_str(t);
+    }
+    data.push('\n');
+  }
+  let mut si = ch.stdin.take().unwrap();
+  let writer = std::thread::spawn(move || {
+    let _ = si.write_all(data.as_bytes());
+  });
+  let mut so = ch.stdout.take().unwrap();
+  let reader = std::thread::spawn(move || {
+    let mut out = String::new();
+    let _ = so.read_to_string(&mut out);
+    out
+  });
+  let start = std::time::Instant::now();
+  let end;
+  loop {
+    match ch.try_wait() {
+      Ok(Some(status)) => {
+        end = if status.success() {
+          "ok".to_string()
+        } else {
+          use std::os::unix::process::ExitStatusExt;
+          match status.signal() {
+            Some(sig) => format!("signal:{}", sig),
+            None => format!("exit:{}", status.code().unwrap_or(-1)),
+          }
+        };
+        break;
+      }
+      Ok(None) => {
+        if start.elapsed().as_millis() as u64 > timeout_ms {
+          let _ = ch.kill();
+          let _ = ch.wait();
+          end = "timeout".to_string();
+          break;
+        }
+        std::thread::sleep(std::time::Duration::from_millis(1));
+      }
+      Err(_) => {
+        end = "wait-error".to_string();
+        break;
+      }
+    }
+  }
+  let _ = writer.join();
+  let out = reader.join().unwrap_or_default();
+  let mut ls = out.lines().map(|l| l.to_string());
+  let first = ls.next().unwrap_or_default();
+  (first, ls.collect(), end)
+}
+
+/// All cases of one graph: a batch in one child; when the child dies, the case it died on
+/// is recorded as `(abort …)` and the rest continues in another child.
+fn run_cases(xml: &str, cases: &[(String, Vec<(String, String)>)]) -> (String, Vec<String>) {
+  let mut answers: Vec<String> = vec![];
+  let mut build = String::new();
+  let mut rounds = 0;
+  while answers.len() < cases.len() && rounds < 40 {
+    rounds += 1;
+    let (first, got, end) = run_child(xml, &cases[answers.len()..], 20_000);
+    if build.is_empty() {
+      build = if first.is_empty() { format!("buildabort {}", end) } else { first.clone() };
+    }
+    if first != "built" {
+      break;
+    }
+    let complete = got.len() == cases.len() - answers.len();
+    answers.extend(got);
+    if !complete {
+      answers.push(format!("(abort {})", end));
+    }
+  }
+  (build, answers)
+}
+
+// ------------------------------------------------------------------------------------------
+// running
+
+fn render_impl(r: Result<Value, String>) -> String {
+  match r {
+    Ok(v) => match value_sexp(&v) {
+      Some(s) => format!("(ok {})", s),
+      None => "(unencodable)".to_string(),
+    },
+    Err(m) => format!("(panic {})", Sexp::str(&m)),
+  }
+}
+
+struct Pending {
+  shape: String,
+  xml: String,
+  invocable: String,
+  input_text: String,
+  implementation: String,
+  /// what the additional entries are, relative to `base`: none / outside the closure / named like a variable
+  variant: &'static str,
+  /// index (into the pending list) of the evaluation of the same invocable on the base context
+  base: Option<usize>,
+  var_clash: bool,
+  bkm_svc: bool,
+  nontrivial: bool,
+}
+
+fn parse_names(ans: &str) -> Option<BTreeSet<String>> {
+  let x = Sexp::parse(ans)?;
+  let xs = x.as_list()?;
+  if xs.first()?.as_atom()? != "names" {
+    return None;
+  }
+  let mut out = BTreeSet::new();
+  for n in &xs[1..] {
+    let cs = n.as_list()?;
+    let s: String = cs.iter().skip(1).filter_map(|c| c.as_atom().and_then(|a| a.parse::<u32>().ok()).and_then(char::from_u32)).collect();
+    out.insert(s);
+  }
+  Some(out)
+}
+
+pub fn run(cfg: &Cfg) -> Report {
+  if cfg.extra.iter().any(|a| a == "c04-child") {
+    child_main();
+    std::process::exit(0);
+  }
+  let mut rep = Report::new(
+    "C04",
+    "acyclic requirement graphs of 2..8 nodes (decisions, knowledge models, decision services) over 1..3 typed inputs — diamonds, a decision required directly and through a service, knowledge models requiring knowledge models and services, literal / boxed context / boxed invocation / boxed function definition / relation logic, variables named like inputs or other decisions, typed and untyped variables — rendered as DMN XML and loaded by the real parser and builder; every invocable evaluated on generated input contexts (plain, plus entries outside the requirement closure, plus entries named like variables of decisions / knowledge models / services). Non-trivial: the invocable has at least one requirement edge in its closure (closureNames non-empty) or the graph has ≥ 3 nodes; distinct by (graph, invocable, input). Cases whose values the exact-arithmetic model cannot compute are counted as skipped_unsupported.",
+  );
+  let mut rng = Rng::new(cfg.seed);
+  let thorough = cfg.tier == "thorough";
+  let n_graphs = if thorough { 12_000 } else { 1_500 };
+  let ff = 10;
+  let mut model = Model::start(&cfg.driver);
+  let mut graphs: Vec<(String, Graph)> = corpus().into_iter().map(|(n, g)| (n.to_string(), g)).collect();
+  for k in 0..n_graphs {
+    graphs.push((format!("random-{}", k), gen_graph(&mut rng)));
+  }
+  // graphs with a requirement cycle: the predicate must reject them (they are not evaluated:
+  // the implementation overflows its stack on them, C12)
+  for (name, g) in cyclic_corpus() {
+    if let Some(gs) = graph_sexp(&g) {
+      let a = model.ask(&format!("(c04 acyclic {})", gs));
+      rep.hit(&format!("cyclic-corpus:{}", a));
+      if a != "cyclic" {
+        rep.disagree(Kind::ImplVsModel, "acyclic", "Drg.acyclic accepts a graph with a requirement cycle", name, "cyclic", &a);
+      }
+    }
+  }
+  let mut build_errors = 0u64;
+  let mut unparsable = 0u64;
+  let mut skipped = 0u64;
+  let trace = std::env::var("C04_TRACE").is_ok();
+  for (shape, g) in &graphs {
+    let xml = graph_xml(g);
+    if trace {
+      eprintln!("{} {}", shape, xml);
+    }
+    let gs = match graph_sexp(g) {
+      Some(s) => s.to_string(),
+      None => {
+        unparsable += 1;
+        if trace {
+          eprintln!("UNPARSABLE {}", xml);
+        }
+        rep.hit("graph:logic-does-not-parse");
+        // the builder parses the same text in the same scope: it must refuse the model
+        let (build, _, _) = run_child(&xml, &[], 20_000);
+        if build != "builderror" {
+          rep.disagree(Kind::ImplVsModel, "build", "the builder accepts a literal expression that does not parse in the replicated build-time scope", &xml, &build, "builderror");
+        }
+        continue;
+      }
+    };
+    let gf = g.decisions.len() + g.bkms.len() + g.services.len() + 1;
+    rep.hit(&format!("graph:nodes={}", g.decisions.len() + g.bkms.len() + g.services.len()));
+    if !g.services.is_empty() {
+      rep.hit("graph:with-service");
+    }
+    if g.bkm_requires_service() {
+      rep.hit("graph:bkm-requires-service");
+    }
+    {
+      let mut kinds = BTreeSet::new();
+      for d in &g.decisions {
+        logic_kinds(&d.logic, &mut kinds);
+      }
+      for b in &g.bkms {
+        let mut k2 = BTreeSet::new();
+        logic_kinds(&b.logic, &mut k2);
+        for k in k2 {
+          if k != "literal" {
+            rep.hit(&format!("bkm-body:{}", k));
+          }
+        }
+      }
+      for k in kinds {
+        rep.hit(&format!("decision-logic:{}", k));
+      }
+      let vn = g.var_names();
+      if g.inputs.iter().any(|i| vn.contains(&i.name)) {
+        rep.hit("graph:variable-named-like-an-input");
+      }
+      if g.decisions.iter().any(|d| g.decisions.iter().filter(|e| e.var == d.var).count() > 1) {
+        rep.hit("graph:two-decisions-with-one-variable-name");
+      }
+      if g.decisions.iter().any(|d| d.req_knowledge.iter().any(|k| g.service(k).map_or(false, |s| s.output.iter().chain(s.encapsulated.iter()).any(|o| d.req_decisions.contains(o))))) {
+        rep.hit("graph:decision-required-directly-and-through-a-service");
+      }
+      if g.bkms.iter().any(|b| b.req_knowledge.iter().any(|k| g.bkm(k).is_some())) {
+        rep.hit("graph:bkm-requires-bkm");
+      }
+      for d in &g.decisions {
+        let n = d.req_decisions.len();
+        if n >= 2 && d.req_decisions.iter().any(|q| g.decision(q).map_or(false, |r| !r.req_decisions.is_empty() || !r.req_inputs.is_empty())) {
+          rep.hit("graph:diamond-or-join");
+          break;
+        }
+      }
+    }
+    let invocables = g.invocable_names();
+    // closure names per invocable
+    let creqs: Vec<String> = invocables.iter().map(|n| format!("(c04 closure {} {} {})", gf, gs, Sexp::str(n))).collect();
+    let cans = model.ask_batch(&creqs);
+    let var_names = g.var_names();
+    let mut all_names: BTreeSet<String> = var_names.clone();
+    for i in &g.inputs {
+      all_names.insert(i.name.clone());
+    }
+    let n_ctx = if shape.starts_with("random") {
+      2
+    } else if shape == "recursion-by-name" {
+      1
+    } else {
+      6
+    };
+    let mut pend: Vec<Pending> = vec![];
+    let mut reqs: Vec<String> = vec![];
+    let mut cases: Vec<(String, Vec<(String, String)>)> = vec![];
+    for (inv, cans) in invocables.iter().zip(cans.iter()) {
+      let closure = match parse_names(cans) {
+        Some(c) => c,
+        None => {
+          rep.disagree(Kind::ImplVsModel, "closure", "driver-error", &creqs[0], cans, "(names …)");
+          continue;
+        }
+      };
+      for _ in 0..n_ctx {
+        let mut base = base_entries(g, &mut rng);
+        // parameters of knowledge models / services invoked by name are input entries too
+        for n in &closure {
+          if !base.iter().any(|(m, _)| m == n) && !var_names.contains(n) && rng.chance(3, 4) {
+            base.push((n.clone(), value_text(Ty::Number, &mut rng)));
+          }
+        }
+        // entries outside the closure: fresh names, and names of the graph the invocable does not reach
+        let mut outside = base.clone();
+        outside.push(("zz".into(), "5".into()));
+        for n in &all_names {
+          if !closure.contains(n) && !base.iter().any(|(m, _)| m == n) && rng.chance(2, 3) {
+            outside.push((n.clone(), value_text(Ty::Number, &mut rng)));
+          }
+        }
+        // entries named like variables in the closure (they override: finding F14)
+        let mut clash = base.clone();
+        for n in &closure {
+          if var_names.contains(n) && !base.iter().any(|(m, _)| m == n) && rng.chance(2, 3) {
+            clash.push((n.clone(), value_text(Ty::Number, &mut rng)));
+          }
+        }
+        let base_ix = pend.len();
+        for (variant, entries) in [("base", &base), ("outside", &outside), ("clash", &clash)] {
+          if variant == "clash" && entries.len() == base.len() {
+            continue;
+          }
+          let ctx = ctx_of(entries);
+          let implementation = String::new();
+          let input = match value_sexp(&Value::Context(ctx.clone())) {
+            Some(s) => s,
+            None => continue,
+          };
+          reqs.push(format!("(c04 eval {} {} {} {} {})", ff, gf, gs, Sexp::str(inv), input));
+          cases.push((inv.clone(), entries.clone()));
+          pend.push(Pending {
+            shape: shape.clone(),
+            xml: xml.clone(),
+            invocable: inv.clone(),
+            input_text: ctx_text(entries),
+            implementation,
+            variant,
+            base: if variant == "base" { None } else { Some(base_ix) },
+            var_clash: entries.iter().any(|(n, _)| var_names.contains(n)) || (!g.services.is_empty() && g.inputs.iter().any(|i| var_names.contains(&i.name))),
+            bkm_svc: g.bkm_requires_service(),
+            nontrivial: !closure.is_empty() || gf > 3,
+          });
+        }
+      }
+    }
+    let answers = model.ask_batch(&reqs);
+    let split = |both: &String| -> (String, String) {
+      match Sexp::parse(both).as_ref().and_then(|x| x.as_list()) {
+        Some([m, s]) => (m.to_string(), s.to_string()),
+        Some([m, s, _]) => (m.to_string(), s.to_string()),
+        _ => (both.clone(), both.clone()),
+      }
+    };
+    // the generated graphs are acyclic by construction: the decidable predicate must say so
+    if let Some(a) = answers.first() {
+      if a.ends_with(" cyclic)") {
+        rep.disagree(Kind::ImplVsModel, "acyclic", "Drg.acyclic rejects a graph that is acyclic by construction", &xml, "acyclic", "cyclic");
+      } else if a.ends_with(" acyclic)") {
+        rep.hit("acyclic:accepted");
+      }
+    }
+    // the implementation, in child processes: the cases for which the model predicts unbounded
+    // recursion each in a child of their own, the others as one batch
+    let risky: Vec<bool> = answers.iter().map(|a| split(a).0 == "(diverge)").collect();
+    let safe_cases: Vec<(String, Vec<(String, String)>)> = cases.iter().zip(risky.iter()).filter(|(_, r)| !**r).map(|(c, _)| c.clone()).collect();
+    let (build, safe_answers) = if safe_cases.is_empty() {
+      let (first, _, end) = run_child(&xml, &[], 20_000);
+      (if first.is_empty() { format!("buildabort {}", end) } else { first }, vec![])
+    } else {
+      run_cases(&xml, &safe_cases)
+    };
+    if build != "built" {
+      if build == "builderror" {
+        build_errors += 1;
+        rep.hit("graph:build-error");
+      } else {
+        rep.disagree(Kind::ImplVsSpec, "no_panic", "panic or abort while building the model evaluator", &xml, &build, "a model evaluator or an error");
+      }
+      continue;
+    }
+    let mut it = safe_answers.into_iter();
+    for (ix, p) in pend.iter_mut().enumerate() {
+      if risky[ix] {
+        let (_, got, end) = run_child(&xml, &cases[ix..ix + 1], 5_000);
+        p.implementation = got.into_iter().next().unwrap_or_else(|| format!("(abort {})", end));
+      } else {
+        p.implementation = it.next().unwrap_or_else(|| "(missing)".to_string());
+      }
+    }
+    for (ix, (p, both)) in pend.iter().zip(answers.iter()).enumerate() {
+      let (m, s) = split(both);
+      // a stack overflow (the process aborts) is what the model calls `diverge`
+      let aborted = p.implementation.starts_with("(abort");
+      let (m, s) = if aborted { (m.replace("(diverge)", &p.implementation), s.replace("(diverge)", &p.implementation)) } else { (m, s) };
+      let input_desc = format!("invocable {} on {} in model {}", p.invocable, p.input_text, p.xml);
+      if m == "(unsupported)" || s == "(unsupported)" {
+        skipped += 1;
+        rep.hit("skipped:unsupported");
+        continue;
+      }
+      rep.case(&reqs[ix], p.nontrivial);
+      rep.hit(&format!("variant:{}", p.variant));
+      rep.hit(&format!("outcome:{}", p.implementation.split(' ').next().unwrap_or("").trim_matches(|c| c == '(' || c == ')')));
+      if p.implementation.starts_with("(panic") {
+        rep.disagree(Kind::ImplVsSpec, "no_panic", "panic while evaluating an invocable", &input_desc, &p.implementation, "a value");
+        continue;
+      }
+      if aborted {
+        rep.hit("outcome:abort-where-the-model-diverges");
+        rep.notes.push(format!("unbounded recursion (process abort) as the model predicts: {}", input_desc.chars().take(600).collect::<String>()));
+        rep.notes.truncate(5);
+      }
+      // ---- the tie: implementation = model
+      if p.implementation != m {
+        let sig = if m.starts_with("(error") { "driver-error" } else { "evaluate_invocable differs from the model" };
+        rep.disagree(Kind::ImplVsModel, "evaluate_invocable", sig, &input_desc, &p.implementation, &m);
+      }
+      // ---- the property, first sentence: the value prescribed by the specification
+      if p.implementation != s {
+        let sig = if p.var_clash {
+          "an input entry named like the variable of a required decision / knowledge model / decision service replaces its value (overwrite by input data)"
+        } else if p.bkm_svc {
+          "a decision service required by a knowledge model is evaluated on the input data instead of being bound as a function"
+        } else {
+          "the value of the invocable differs from the specification"
+        };
+        rep.disagree(Kind::ImplVsSpec, "eval_decision_spec", sig, &input_desc, &p.implementation, &s);
+      }
+      // ---- the property, last sentence, on the implementation alone: non-interference
+      if p.variant == "outside" {
+        if let Some(b) = p.base {
+          if pend[b].implementation != p.implementation {
+            rep.disagree(
+              Kind::ImplVsSpec,
+              "irrelevant_inputs",
+              "input entries outside the requirement closure change the result",
+              &format!("{} versus base {}", input_desc, pend[b].input_text),
+              &p.implementation,
+              &pend[b].implementation,
+            );
+          }
+        }
+      }
+      if rep.samples.len() < 10 && p.nontrivial && p.xml.len() < 1400 && !p.implementation.contains("null") && (rep.samples.len() < 4 || p.shape.starts_with("random")) {
+        rep.sample(json!({"shape": p.shape, "invocable": p.invocable, "input": p.input_text, "xml": p.xml, "implementation": p.implementation, "model": m, "spec": s}));
+      }
+    }
+  }
+  rep.extra.insert("graphs".into(), json!(graphs.len()));
+  rep.extra.insert("build_errors".into(), json!(build_errors));
+  rep.extra.insert("logic_unparsable".into(), json!(unparsable));
+  rep.extra.insert("skipped_unsupported".into(), json!(skipped));
+  rep.model_requests = model.requests;
+  rep
 }
